@@ -139,7 +139,8 @@ the property's own quick check, {s3['missed_first']} of them only by units writt
 queue histories, I/O-register values at a boundary, sequences with trace logging - each closes a class);
 **{s3['notrep']} are not reported** and are kept as recorded limits of the bounds (§9): magic 32-bit constants,
 a seven-instruction magic window, a peripheral that needs four to five cooperating register values,
-behaviour that depends on the instruction trace being printed.  {s3['notviol']} judged not to violate the property as stated.
+behaviour that depends on the instruction trace being printed, and one (C18-M6, a 30 s read time-out) that
+needs 30 s of real time and is reported by the thorough tier only.  {s3['notviol']} judged not to violate the property as stated.
 
 {HEAD}
 """ + "\n".join(r3) + "\n")
